@@ -3,6 +3,7 @@ package rules
 import (
 	"fmt"
 	"go/constant"
+	"go/token"
 	"go/types"
 	"os"
 	"strconv"
@@ -623,4 +624,138 @@ func c04AcceptedExact(c *Ctx) bool {
 	}
 	c.check(true, rule, f, what, nil, sprintf("equal as Boolean functions of the name's bytes and of ValidateDomainName's verdict, for every name of %d..%d bytes and of 40, 64, 71..75 bytes", lengths[0], 31))
 	return true
+}
+
+// c04NoRetainedArgument: the encoder's result is a function of the bytes it
+// is given *now*.  A package-level memory that keeps the caller's net.IP — the
+// slice itself, not a copy — answers a later call from bytes the caller has
+// since overwritten.  Decided by taint: the slice parameter, its re-slicings
+// and conversions, and every local object it is stored into must not reach a
+// store into package-level state or a call on it (atomic/sync cells).
+func c04NoRetainedArgument(c *Ctx, f *ssa.Function) {
+	const rule = "C04.no-retained-argument"
+	if f == nil || len(f.Params) == 0 {
+		return
+	}
+	tainted := map[ssa.Value]bool{}
+	for _, p := range f.Params {
+		if _, ok := p.Type().Underlying().(*types.Slice); ok {
+			tainted[p] = true
+		}
+	}
+	rootGlobal := func(v ssa.Value) bool {
+		for depth := 0; depth < 8; depth++ {
+			switch x := v.(type) {
+			case *ssa.Global:
+				return true
+			case *ssa.FieldAddr:
+				v = x.X
+			case *ssa.IndexAddr:
+				v = x.X
+			case *ssa.UnOp:
+				v = x.X
+			default:
+				return false
+			}
+		}
+		return false
+	}
+	// propagate to a fixed point
+	for changed := true; changed; {
+		changed = false
+		mark := func(v ssa.Value) {
+			if v != nil && !tainted[v] {
+				tainted[v], changed = true, true
+			}
+		}
+		core.EachInstr(f, func(in ssa.Instruction) {
+			switch x := in.(type) {
+			case *ssa.Slice:
+				if tainted[x.X] {
+					mark(x)
+				}
+			case *ssa.ChangeType:
+				if tainted[x.X] {
+					mark(x)
+				}
+			case *ssa.Convert:
+				// a conversion between slice types shares the array; string(b)
+				// copies
+				if _, ok := x.Type().Underlying().(*types.Slice); ok && tainted[x.X] {
+					mark(x)
+				}
+			case *ssa.MakeInterface:
+				if tainted[x.X] {
+					mark(x)
+				}
+			case *ssa.Phi:
+				for _, e := range x.Edges {
+					if tainted[e] {
+						mark(x)
+					}
+				}
+			case *ssa.Store:
+				// a local object that holds the slice is itself a carrier
+				if tainted[x.Val] {
+					root := x.Addr
+					for {
+						switch a := root.(type) {
+						case *ssa.FieldAddr:
+							root = a.X
+							continue
+						case *ssa.IndexAddr:
+							root = a.X
+							continue
+						}
+						break
+					}
+					if _, ok := root.(*ssa.Alloc); ok {
+						mark(root)
+					}
+				}
+			case *ssa.UnOp:
+				if x.Op == token.MUL && tainted[x.X] {
+					mark(x)
+				}
+			case *ssa.Call:
+				// net.IP's own views of the same array
+				switch core.CalleeName(&x.Call) {
+				case "(net.IP).To4", "(net.IP).To16":
+					if len(x.Call.Args) == 1 && tainted[x.Call.Args[0]] {
+						mark(x)
+					}
+				}
+			}
+		})
+	}
+	n := 0
+	if os.Getenv("GSA_DBG") != "" {
+		for v := range tainted {
+			fmt.Fprintln(os.Stderr, "retained-argument: tainted", v.Name(), v)
+		}
+	}
+	core.EachInstr(f, func(in ssa.Instruction) {
+		switch x := in.(type) {
+		case *ssa.Store:
+			if tainted[x.Val] && rootGlobal(x.Addr) {
+				n++
+				c.check(false, rule, f, "the caller's slice is not kept in package-level state", x, "a later call is answered from bytes the caller may have overwritten since")
+			}
+		case ssa.CallInstruction:
+			com := x.Common()
+			if len(com.Args) == 0 || !rootGlobal(com.Args[0]) {
+				return
+			}
+			for _, a := range com.Args[1:] {
+				if tainted[a] {
+					n++
+					c.check(false, rule, f, "the caller's slice is not kept in package-level state", x, sprintf("%s stores an object holding the argument's backing array: a later call is answered from bytes the caller may have overwritten since", core.CalleeName(com)))
+					return
+				}
+			}
+		}
+	})
+	if n == 0 {
+		c.check(true, rule, f, "the caller's slice is not kept in package-level state", nil, "no tainted value reaches a store into, or a call on, a package-level variable")
+	}
 }
